@@ -42,6 +42,8 @@ RMBODY = {
     # single-task harnesses: the futures Mutex is never contended, so nobody ever queues for it.  The waiter-queue
     # functions must be unreachable (proved); without the cut one uncontended lock/unlock costs 4.2 M symex steps
     "nowaiters": ("unreachable", r"^slab::Slab::<.*>::insert /|^slab::Slab::<.*>::iter_mut /|^slab::Slab::<.*>::remove /|^slab::Slab::<.*>::try_remove /|^std::sys::sync::mutex::futex::Mutex::lock_contended /|^std::sys::sync::mutex::futex::Mutex::wake /"),
+    # close() harnesses start from a writeable request: writeable() returns at once, poll_input must be unreachable
+    "nopollinput": ("unreachable", r"^async_io::Request::<.*>::poll_input /"),
     "nogrow": ("unreachable", r"raw_vec::RawVecInner::grow_amortized /|raw_vec::RawVecInner::grow_exact /|SmallVec::<.*>::try_grow /"),
 }
 
@@ -415,7 +417,10 @@ def main(argv):
     reg = registry()
     if prop not in P.PROPS:
         raise SystemExit("unknown or unclaimed property " + prop)
-    sel = [h for h in reg.values() if prop in h.props and (a.tier == "thorough" or h.tier == "quick")]
+    # tier=manual harnesses (kept for bug hunting: they find counterexamples fast but their UNSAT proofs do not fit) are
+    # selected only when named with --only
+    sel = [h for h in reg.values() if prop in h.props and (h.tier == "quick" or (a.tier == "thorough" and h.tier == "thorough")
+                                                           or (h.tier == "manual" and a.only))]
     if a.only:
         sel = [h for h in sel if re.search(a.only, h.name)]
     if not sel:
